@@ -28,7 +28,7 @@ CATALOGUE = {
     "kb": ({"type": "Text", "length": [[1, 2, False]]}, 2, ["x", "y"], [""]),
     "kc": ({"type": "Integer", "rule": {"items": [[0, 9, False]]}}, 1, ["1", "2"], ["z"]),
     "v": ({"type": "Text", "length": [[1, 1, True]]}, 1, ["p", "q", "r", "s", "t"], [""]),
-    "memo": ({"type": "Text", "length": [[1, 40, False]]}, 32, ["big  red box", "very  fragile, handle with care", "a\tb c"], [""]),
+    "memo": ({"type": "Text", "length": [[1, 40, False]]}, 32, ["big  red box", "very  fragile\u2028handle with care\x85", "a\tb c"], [""]),
     "num": ({"type": "Integer", "length": [[1, 2, False]]}, 2, ["5", "-5", "77"], ["123", "y"]),
 }
 _TMP = None
@@ -254,6 +254,9 @@ def row_shapes(config, decls, tier="quick"):
         for column in (bad_columns[0], bad_columns[-1]):
             row[column] = CATALOGUE[names[column]][3][0]
         shapes.append(("bad%d+%d" % (bad_columns[0], bad_columns[-1]), row))
+    if len(names) >= 3:
+        # a row ending in two empty cells (an office suite stores such a run as one repeated cell)
+        shapes.append(("tail-empty", list(base[:-2]) + ["", ""]))
     if fmt != "fixed":
         shapes.append(("short", list(base[:-1])))
         shapes.append(("long", list(base) + ["zz"]))
